@@ -137,14 +137,15 @@ func newEngine() consensus.Engine { return beacon.New(ethash.NewFaker()) }
 // builder generates the world's blocks one at a time with core.GenerateChain (sequential
 // execution, which also produces the block access list after Amsterdam).
 type builder struct {
-	w       *World
-	gspec   *core.Genesis
-	engine  consensus.Engine
-	db      ethdb.Database
-	parent  *types.Block
-	signer  types.Signer
-	dropped int // transactions the generator could not include (gas pool, nonce cap); deterministic
+	w            *World
+	gspec        *core.Genesis
+	engine       consensus.Engine
+	db           ethdb.Database
+	parent       *types.Block
+	signer       types.Signer
+	dropped      int // transactions the generator could not include (gas pool, nonce cap); deterministic
 	lastReceipts types.Receipts
+	hdrChain     *core.BlockChain // if set, BLOCKHASH during generation resolves ancestors through this chain
 }
 
 func newBuilder(w *World) *builder {
@@ -204,7 +205,11 @@ func (b *builder) next(i int) (*types.Block, types.Receipts) {
 				GasTipCap: new(big.Int).Mul(big.NewInt(int64(tp.Tip)), big.NewInt(params.GWei)),
 				Data:      tp.Data,
 			})
-			g.AddTx(tx)
+			if b.hdrChain != nil {
+				g.AddTxWithChain(b.hdrChain, tx)
+			} else {
+				g.AddTx(tx)
+			}
 		}
 		for _, wd := range bp.Wds {
 			g.AddWithdrawal(&types.Withdrawal{Validator: 7, Address: wd.To, Amount: wd.Amount})
@@ -223,6 +228,7 @@ type worldOpts struct {
 	maxTxs     int
 	maxContr   int
 	lowGasProb float64
+	blockhash  bool
 }
 
 func genWorld(r *simcore.Rand, o worldOpts) *World {
@@ -231,7 +237,7 @@ func genWorld(r *simcore.Rand, o worldOpts) *World {
 	w.Senders = r.Range(1, 5)
 	nc := r.Range(2, o.maxContr)
 	nfresh := r.Range(1, 4)
-	env := &progEnv{nslots: r.Range(2, 4), system: isPrague(w.Fork), mcopy: true}
+	env := &progEnv{nslots: r.Range(2, 4), system: isPrague(w.Fork), mcopy: true, blockhash: o.blockhash}
 	for i := 0; i < w.Senders; i++ {
 		env.eoas = append(env.eoas, senderAddr(i))
 	}
